@@ -29,10 +29,10 @@ import (
 	"net"
 	"strconv"
 	"strings"
+	"sync"
 	"testing"
 	"time"
 
-	"github.com/foxcpp/go-mockdns"
 	"github.com/foxcpp/maddy/framework/dns"
 	"github.com/foxcpp/maddy/framework/exterrors"
 	"github.com/foxcpp/maddy/framework/future"
@@ -299,6 +299,7 @@ func c13Hash(b []byte, mt uint8) []byte {
 type c13World struct {
 	pki    *c13PKI
 	chains map[string]*c13Chain
+	dns    *c13DNS // only in the tests that need one
 }
 
 func (w *c13World) targetCert(r c13Rec, ch *c13Chain) *x509.Certificate {
@@ -981,22 +982,22 @@ func TestVerifC13CheckConn(t *testing.T) {
 
 // ---------------------------------------------------------------- discovery against a DNS server
 
-type c13NoLog struct{}
-
-func (c13NoLog) Printf(string, ...interface{}) {}
-
 // c13Zone describes the DNS the MX host lives in.
 //
-//	a: state of the MX host name — F servfail, X does not exist, N exists without address,
-//	   s address records signed (AD), i address records insecure, 6 AAAA only and signed
+//	a: state of the MX host name — F lookup fails, X does not exist, N exists without address,
+//	   s address records signed (AD), i address records insecure, 6 AAAA only and signed,
+//	   Q no A record and the AAAA lookup fails
 //	c: alias — "-" none, or two letters: is the alias record signed (s/i), and the state of the
-//	   canonical name: s signed addresses, i insecure addresses, X does not exist, F servfail
+//	   canonical name: s signed addresses, i insecure addresses, X does not exist, F lookup fails
+//	q: the CNAME-type query for the MX name — "-" answers normally, F fails, X name error
 //	r: TLSA RRset under the canonical name, m: TLSA RRset under the MX name —
-//	   X no such name, F servfail, s signed with records, i insecure with records, e signed and empty
+//	   X no such name, F lookup fails, s signed with records, i insecure with records, e signed and empty
+//	f: the RCODE a failing lookup ends in (2 SERVFAIL, 5 REFUSED, 4 NOTIMP, 1 FORMERR)
 type c13Zone struct {
-	a, c, r, m string
-	recsR      []c13Rec
-	recsM      []c13Rec
+	a, c, q, r, m string
+	f             int
+	recsR         []c13Rec
+	recsM         []c13Rec
 }
 
 func (z c13Zone) code() string {
@@ -1010,7 +1011,7 @@ func (z c13Zone) code() string {
 		}
 		return strings.Join(p, ",")
 	}
-	return fmt.Sprintf("a%s_c%s_r%s_m%s;%s;%s", z.a, z.c, z.r, z.m, enc(z.recsR), enc(z.recsM))
+	return fmt.Sprintf("a%s_c%s_q%s_r%s_m%s_f%d;%s;%s", z.a, z.c, z.q, z.r, z.m, z.f, enc(z.recsR), enc(z.recsM))
 }
 
 func c13ParseZone(code string) (c13Zone, error) {
@@ -1019,10 +1020,11 @@ func c13ParseZone(code string) (c13Zone, error) {
 		return c13Zone{}, fmt.Errorf("bad zone code %q", code)
 	}
 	f := strings.Split(parts[0], "_")
-	if len(f) != 4 {
+	if len(f) != 6 {
 		return c13Zone{}, fmt.Errorf("bad zone code %q", code)
 	}
-	z := c13Zone{a: f[0][1:], c: f[1][1:], r: f[2][1:], m: f[3][1:]}
+	z := c13Zone{a: f[0][1:], c: f[1][1:], q: f[2][1:], r: f[3][1:], m: f[4][1:]}
+	z.f, _ = strconv.Atoi(f[5][1:])
 	dec := func(s string) ([]c13Rec, error) {
 		if s == "-" {
 			return nil, nil
@@ -1047,33 +1049,77 @@ func c13ParseZone(code string) (c13Zone, error) {
 	return z, nil
 }
 
-func (w *c13World) zones(z c13Zone, ch *c13Chain) map[string]mockdns.Zone {
-	zs := map[string]mockdns.Zone{}
-	servfail := errors.New("verif: simulated resolver failure")
-	addr := func(k string) mockdns.Zone {
-		switch k {
-		case "F":
-			return mockdns.Zone{Err: servfail}
-		case "N":
-			return mockdns.Zone{AD: true}
-		case "s":
-			return mockdns.Zone{AD: true, A: []string{"127.0.0.1"}}
-		case "i":
-			return mockdns.Zone{AD: false, A: []string{"127.0.0.1"}}
-		case "6":
-			return mockdns.Zone{AD: true, AAAA: []string{"::1"}}
-		}
-		panic("bad address state " + k)
+// c13Answer is the scripted response to one (name, type) question; questions without an entry get
+// NXDOMAIN.
+type c13Answer struct {
+	rcode int
+	ad    bool
+	rrs   []miekgdns.RR
+}
+
+func c13QKey(name string, qtype uint16) string {
+	return strings.ToLower(name) + "|" + strconv.Itoa(int(qtype))
+}
+
+// the script a validating resolver would answer with in the world z describes
+func (w *c13World) script(z c13Zone, ch *c13Chain) map[string]c13Answer {
+	sc := map[string]c13Answer{}
+	fail := c13Answer{rcode: z.f}
+	hdr := func(name string, t uint16) miekgdns.RR_Header {
+		return miekgdns.RR_Header{Name: name, Rrtype: t, Class: miekgdns.ClassINET, Ttl: 9999}
 	}
+	aRR := func(name string) miekgdns.RR {
+		return &miekgdns.A{Hdr: hdr(name, miekgdns.TypeA), A: net.ParseIP("127.0.0.1")}
+	}
+	aaaaRR := func(name string) miekgdns.RR {
+		return &miekgdns.AAAA{Hdr: hdr(name, miekgdns.TypeAAAA), AAAA: net.ParseIP("::1")}
+	}
+	// address-type answers for a question asked at qname whose final owner is `owner` in state st;
+	// pre = alias records leading there, adPre = are they signed
+	addr := func(qname, owner, st string, pre []miekgdns.RR, adPre bool) {
+		A, AAAA := c13QKey(qname, miekgdns.TypeA), c13QKey(qname, miekgdns.TypeAAAA)
+		with := func(ad bool, rrs ...miekgdns.RR) c13Answer {
+			return c13Answer{ad: ad && adPre, rrs: append(append([]miekgdns.RR(nil), pre...), rrs...)}
+		}
+		switch st {
+		case "F":
+			sc[A], sc[AAAA] = fail, fail
+		case "X":
+		case "N":
+			sc[A], sc[AAAA] = with(true), with(true)
+		case "s":
+			sc[A], sc[AAAA] = with(true, aRR(owner)), with(true)
+		case "i":
+			sc[A], sc[AAAA] = with(false, aRR(owner)), with(false)
+		case "6":
+			sc[A], sc[AAAA] = with(true), with(true, aaaaRR(owner))
+		case "Q":
+			sc[A], sc[AAAA] = with(true), fail
+		default:
+			panic("bad address state " + st)
+		}
+	}
+	cnameQ := c13QKey(c13MXFQ, miekgdns.TypeCNAME)
 	if z.c == "-" {
-		if z.a != "X" {
-			zs[c13MXFQ] = addr(z.a)
+		addr(c13MXFQ, c13MXFQ, z.a, nil, true)
+		switch z.a {
+		case "F":
+			sc[cnameQ] = fail
+		case "X":
+		default:
+			sc[cnameQ] = c13Answer{ad: z.a != "i"}
 		}
 	} else {
-		zs[c13MXFQ] = mockdns.Zone{AD: z.c[0] == 's', CNAME: c13Canon}
-		if z.c[1] != 'X' {
-			zs[c13Canon] = addr(string(z.c[1]))
-		}
+		alias := &miekgdns.CNAME{Hdr: hdr(c13MXFQ, miekgdns.TypeCNAME), Target: c13Canon}
+		signed := z.c[0] == 's'
+		addr(c13MXFQ, c13Canon, string(z.c[1]), []miekgdns.RR{alias}, signed)
+		sc[cnameQ] = c13Answer{ad: signed, rrs: []miekgdns.RR{alias}}
+	}
+	switch z.q {
+	case "F":
+		sc[cnameQ] = fail
+	case "X":
+		delete(sc, cnameQ)
 	}
 	tlsa := func(k, owner string, recs []c13Rec) {
 		var rrs []miekgdns.RR
@@ -1081,16 +1127,17 @@ func (w *c13World) zones(z c13Zone, ch *c13Chain) map[string]mockdns.Zone {
 			rr := w.tlsa(r, ch, owner)
 			rrs = append(rrs, &rr)
 		}
+		key := c13QKey(owner, miekgdns.TypeTLSA)
 		switch k {
 		case "X":
 		case "F":
-			zs[owner] = mockdns.Zone{Err: servfail}
+			sc[key] = fail
 		case "s":
-			zs[owner] = mockdns.Zone{AD: true, Misc: map[miekgdns.Type][]miekgdns.RR{miekgdns.Type(miekgdns.TypeTLSA): rrs}}
+			sc[key] = c13Answer{ad: true, rrs: rrs}
 		case "i":
-			zs[owner] = mockdns.Zone{AD: false, Misc: map[miekgdns.Type][]miekgdns.RR{miekgdns.Type(miekgdns.TypeTLSA): rrs}}
+			sc[key] = c13Answer{ad: false, rrs: rrs}
 		case "e":
-			zs[owner] = mockdns.Zone{AD: true}
+			sc[key] = c13Answer{ad: true}
 		default:
 			panic("bad tlsa state " + k)
 		}
@@ -1099,7 +1146,7 @@ func (w *c13World) zones(z c13Zone, ch *c13Chain) map[string]mockdns.Zone {
 	if z.c != "-" {
 		tlsa(z.r, "_25._tcp."+c13Canon, z.recsR)
 	}
-	return zs
+	return sc
 }
 
 func c13LErr(err error) string {
@@ -1136,24 +1183,65 @@ func (w *c13World) ansToken(ad bool, recs []dns.TLSA, err error, ch *c13Chain) s
 	return e + ":" + c13b(ad) + ":" + c13dash(strings.Join(p, ","))
 }
 
+// c13DNS is a scripted DNS server on loopback (UDP) and an ExtResolver pointed at it.
 type c13DNS struct {
-	srv *mockdns.Server
-	ext *dns.ExtResolver
+	mu     sync.Mutex
+	script map[string]c13Answer
+	srv    *miekgdns.Server
+	ext    *dns.ExtResolver
 }
 
-func c13StartDNS(t *testing.T, zones map[string]mockdns.Zone) *c13DNS {
-	srv, err := mockdns.NewServerWithLogger(zones, c13NoLog{}, false)
+func (d *c13DNS) ServeDNS(wr miekgdns.ResponseWriter, m *miekgdns.Msg) {
+	reply := new(miekgdns.Msg)
+	reply.SetReply(m)
+	reply.RecursionAvailable = true
+	q := m.Question[0]
+	d.mu.Lock()
+	ans, ok := d.script[c13QKey(q.Name, q.Qtype)]
+	d.mu.Unlock()
+	switch {
+	case !ok:
+		reply.Rcode = miekgdns.RcodeNameError
+	case ans.rcode != 0:
+		reply.Rcode = ans.rcode
+	default:
+		reply.AuthenticatedData = ans.ad
+		reply.Answer = ans.rrs
+	}
+	_ = wr.WriteMsg(reply)
+}
+
+func (d *c13DNS) set(sc map[string]c13Answer) {
+	d.mu.Lock()
+	d.script = sc
+	d.mu.Unlock()
+}
+
+func (d *c13DNS) Close() { _ = d.srv.Shutdown() }
+
+func c13StartDNS(t *testing.T) *c13DNS {
+	pc, err := net.ListenPacket("udp4", "127.0.0.1:0")
 	if err != nil {
 		t.Fatal(err)
+	}
+	d := &c13DNS{}
+	started := make(chan struct{})
+	d.srv = &miekgdns.Server{PacketConn: pc, Handler: d, NotifyStartedFunc: func() { close(started) }}
+	go func() { _ = d.srv.ActivateAndServe() }()
+	select {
+	case <-started:
+	case <-time.After(30 * time.Second):
+		t.Fatal("c13: DNS server did not start")
 	}
 	ext, err := dns.NewExtResolver()
 	if err != nil {
 		t.Fatal(err)
 	}
-	addr := srv.LocalAddr().(*net.UDPAddr)
+	addr := pc.LocalAddr().(*net.UDPAddr)
 	ext.Cfg.Servers = []string{addr.IP.String()}
 	ext.Cfg.Port = strconv.Itoa(addr.Port)
-	return &c13DNS{srv: srv, ext: ext}
+	d.ext = ext
+	return d
 }
 
 // the resolver answers the model is parametric in, obtained by asking the same server through the
@@ -1191,16 +1279,14 @@ func (w *c13World) oracle(d *c13DNS, ch *c13Chain) (ck, cn, trTok, tmTok string,
 
 // what the zone description says, for the monitor (independent of the resolver code)
 type c13ZoneTruth struct {
-	addrFails    bool // the address lookup of the MX name ends in SERVFAIL
+	addrFails    bool // the address lookup of the MX name fails, or it has no address
+	nameNotExist bool // the MX name (or its canonical name) does not exist
+	resolvable   bool
 	hostSecure   bool // address records (or the alias itself) are signed
 	alias        bool
-	consultsR    bool
-	consultsM    bool
-	lookupFails  bool // a TLSA lookup that RFC 7672 requires ends in SERVFAIL
-	secureR      bool // signed, non-empty RRset under the canonical name
-	secureM      bool // signed RRset under the MX name
-	resolvable   bool
-	nameNotExist bool
+	lookupFails  bool // a lookup RFC 7672 requires (alias, TLSA) fails
+	secureR      bool // signed, non-empty RRset under the canonical name, and it is the one to use
+	incoherent   bool // the alias exists for address lookups but the CNAME-type query denies it
 }
 
 func c13ZoneTruthOf(z c13Zone) c13ZoneTruth {
@@ -1210,7 +1296,7 @@ func c13ZoneTruthOf(z c13Zone) c13ZoneTruth {
 	if t.alias {
 		final = string(z.c[1])
 	}
-	t.addrFails = final == "F"
+	t.addrFails = final == "F" || final == "N" || final == "Q"
 	t.nameNotExist = final == "X"
 	t.resolvable = final == "s" || final == "i" || final == "6"
 	if !t.resolvable {
@@ -1219,25 +1305,39 @@ func c13ZoneTruthOf(z c13Zone) c13ZoneTruth {
 	finalSigned := final == "s" || final == "6"
 	if t.alias {
 		aliasSigned := z.c[0] == 's'
-		t.hostSecure = aliasSigned // a signed alias is enough (RFC 7672 §2.2.2); unsigned alias: never
+		if !(aliasSigned && finalSigned) {
+			// the chain is not signed end to end: the alias itself has to be looked up
+			switch z.q {
+			case "F":
+				t.lookupFails = true
+				return t
+			case "X":
+				t.incoherent = true
+				return t
+			}
+		}
+		t.hostSecure = aliasSigned // a signed alias is enough (RFC 7672 §2.2.2); an unsigned one: never
 	} else {
 		t.hostSecure = finalSigned
 	}
 	if !t.hostSecure {
 		return t
 	}
+	if t.alias && z.r == "F" {
+		t.lookupFails = true
+		return t
+	}
 	t.secureR = t.alias && z.r == "s" && len(z.recsR) > 0
-	t.secureM = z.m == "s" || z.m == "e"
-	t.consultsR = t.alias
-	t.consultsM = !t.secureR && !(t.alias && z.r == "F")
-	t.lookupFails = (t.consultsR && z.r == "F") || (t.consultsM && z.m == "F")
+	if !t.secureR && z.m == "F" {
+		t.lookupFails = true
+	}
 	return t
 }
 
 func (w *c13World) discCase(t *testing.T, out *vh.Out, z c13Zone) {
 	ch := w.chains["LIR"]
-	d := c13StartDNS(t, w.zones(z, ch))
-	defer d.srv.Close()
+	d := w.dns
+	d.set(w.script(z, ch))
 	ck, cn, trTok, tmTok, _ := w.oracle(d, ch)
 	op := fmt.Sprintf("C13 disc z=%s %s %s %s %s", z.code(), ck, cn, trTok, tmTok)
 
@@ -1268,7 +1368,7 @@ func (w *c13World) discCase(t *testing.T, out *vh.Out, z c13Zone) {
 	if (zt.addrFails || zt.lookupFails) && err == nil {
 		out.Violation("C13/lookup-failure-ignored", op, detail)
 	}
-	if len(recs) > 0 {
+	if len(recs) > 0 && !zt.incoherent {
 		// the records must be one of the two published RRsets, and that one must be signed, and
 		// the host secure
 		keys := func(rs []c13Rec) string {
@@ -1293,6 +1393,9 @@ func (w *c13World) discCase(t *testing.T, out *vh.Out, z c13Zone) {
 	out.Stat("disc/zone-alias:" + z.c)
 	out.Stat("disc/zone-tlsa-canon:" + z.r)
 	out.Stat("disc/zone-tlsa-mx:" + z.m)
+	out.Stat("disc/zone-cname-query:" + z.q)
+	out.Stat("disc/cn:" + cn)
+	out.Stat(fmt.Sprintf("disc/zone-fail-rcode:%d", z.f))
 	switch {
 	case err != nil:
 		out.Stat("disc/outcome:" + obs)
@@ -1307,20 +1410,27 @@ func (w *c13World) discCase(t *testing.T, out *vh.Out, z c13Zone) {
 func c13AllZones() []c13Zone {
 	var out []c13Zone
 	tl := []string{"X", "F", "s", "i", "e"}
-	for _, a := range []string{"F", "X", "N", "s", "i", "6"} {
+	for _, a := range []string{"F", "X", "N", "s", "i", "6", "Q"} {
 		for _, m := range tl {
-			out = append(out, c13Zone{a: a, c: "-", r: "X", m: m})
+			out = append(out, c13Zone{a: a, c: "-", q: "-", r: "X", m: m, f: 2})
 		}
 	}
 	for _, c := range []string{"ss", "si", "is", "ii", "sX", "iX", "sF", "iF"} {
 		for _, r := range tl {
 			for _, m := range tl {
-				out = append(out, c13Zone{a: "-", c: c, r: r, m: m})
+				out = append(out, c13Zone{a: "-", c: c, q: "-", r: r, m: m, f: 2})
+				if c[1] == 's' || c[1] == 'i' {
+					// the CNAME-type query for the alias fails / is denied
+					out = append(out, c13Zone{a: "-", c: c, q: "F", r: r, m: m, f: 2})
+					out = append(out, c13Zone{a: "-", c: c, q: "X", r: r, m: m, f: 2})
+				}
 			}
 		}
 	}
 	return out
 }
+
+var c13FailRcodes = []int{miekgdns.RcodeServerFailure, miekgdns.RcodeServerFailure, miekgdns.RcodeRefused, miekgdns.RcodeNotImplemented, miekgdns.RcodeFormatError}
 
 func (w *c13World) fillZoneRecs(rng *vh.Rng, z *c13Zone) {
 	types := c13StatedRecTypes()
@@ -1344,12 +1454,15 @@ func (w *c13World) fillZoneRecs(rng *vh.Rng, z *c13Zone) {
 	if z.m == "s" || z.m == "i" {
 		z.recsM = gen()
 	}
+	z.f = c13FailRcodes[rng.Intn(len(c13FailRcodes))]
 }
 
 func TestVerifC13Discover(t *testing.T) {
 	out := vh.Open("c13_disc")
 	defer out.Close()
 	w := c13NewWorld(t)
+	w.dns = c13StartDNS(t)
+	defer w.dns.Close()
 
 	if rp := vh.Replay(); rp != nil {
 		for _, op := range rp {
@@ -1406,8 +1519,8 @@ func c13GoodZones(all []c13Zone) []c13Zone {
 
 func (w *c13World) connCase(t *testing.T, out *vh.Out, z c13Zone, ck string, hs bool) {
 	ch := w.chains[ck]
-	d := c13StartDNS(t, w.zones(z, ch))
-	defer d.srv.Close()
+	d := w.dns
+	d.set(w.script(z, ch))
 	ock, ocn, trTok, tmTok, _ := w.oracle(d, ch)
 	op := fmt.Sprintf("C13 conn z=%s;%s 1 %s %s %s %s %s %s", z.code(), ck, ock, ocn, trTok, tmTok, c13b(hs), ch.token())
 
@@ -1424,7 +1537,7 @@ func (w *c13World) connCase(t *testing.T, out *vh.Out, z c13Zone, ck string, hs 
 
 	// ---- monitor: from the zone description alone
 	zt := c13ZoneTruthOf(z)
-	lookupFailed := zt.addrFails || zt.lookupFails || (!zt.resolvable && !zt.nameNotExist)
+	lookupFailed := zt.addrFails || zt.lookupFails
 	var recs []c13Rec
 	haveRecs := false
 	if !lookupFailed && zt.hostSecure {
@@ -1435,7 +1548,15 @@ func (w *c13World) connCase(t *testing.T, out *vh.Out, z c13Zone, ck string, hs 
 			recs, haveRecs = z.recsM, true
 		}
 	}
-	w.connMonitor(out, op, true, lookupFailed, haveRecs, recs, ch, hs, lvl, err, panicked)
+	if zt.incoherent {
+		// address lookups follow an alias the CNAME-type query denies: not a world the property
+		// speaks about; correspondence only
+		if panicked {
+			out.Violation("C13/panic", op, "CheckConn panicked")
+		}
+	} else {
+		w.connMonitor(out, op, true, lookupFailed, haveRecs, recs, ch, hs, lvl, err, panicked)
+	}
 	out.Stat("conn/outcome:" + obs)
 	out.Stat("conn/chain:" + ck)
 }
@@ -1444,6 +1565,8 @@ func TestVerifC13Conn(t *testing.T) {
 	out := vh.Open("c13_conn")
 	defer out.Close()
 	w := c13NewWorld(t)
+	w.dns = c13StartDNS(t)
+	defer w.dns.Close()
 
 	if rp := vh.Replay(); rp != nil {
 		for _, op := range rp {
